@@ -169,11 +169,15 @@ where
                     }
                     None
                 })
-                .or_else(|| {
-                    // every committed pivot must be in the result and vice versa
-                    let commits = stats.events.iter().filter(|e| e.site.starts_with("pivot.commit")).count();
-                    (commits != pivs.len()).then(|| Violation::new("lost-or-phantom-pivot", format!("{} commits but {} pivots returned", commits, pivs.len())))
-                });
+;
+            // The recorded commit history need not account for every returned pivot: the property
+            // speaks about the returned set, and code may gain a commit path that carries no probe
+            // (an earlier version of this check demanded commits == pivots and so flagged a harmless
+            // sequential fallback path of a seeded change for the wrong reason). Counted, not judged.
+            let commits = stats.events.iter().filter(|e| e.site.starts_with("pivot.commit")).count();
+            if commits != pivs.len() {
+                rep.counters.insert("commit_history_incomplete".into(), 1);
+            }
         }
     }
     rep
@@ -222,7 +226,7 @@ impl Check for C11 {
     fn tune_cfg(&self, _rng: &mut Rng, case: &Value, cfg: &mut SimCfg) {
         // the step bound is a livelock detector, not a performance bound: code that splits a scan
         // over a thousand columns into items legitimately takes a scheduling point per item
-        if case["a"]["m"].as_u64().unwrap().max(case["a"]["n"].as_u64().unwrap()) >= 1000 {
+        if case["a"]["m"].as_u64().unwrap().max(case["a"]["n"].as_u64().unwrap()) >= 250 {
             cfg.max_steps = cfg.max_steps.max(5_000_000);
         }
     }
